@@ -52,6 +52,9 @@ THEOREMS = [
     'C20_parse_escape_json',
     'C20_escape_json_0x19_refuted',
     'C20_esc_nonvacuous',
+    'C20_hash_vectors',
+    'C20_hash_pad_length',
+    'C20_hash_output_length',
 ]
 # real-number axioms of Coq's standard library, reached through Flocq (shr_truncate, binary_normalize_correct)
 # by C20_radix_value_exact, C20_radix_long_is_rne and C20_f_of_Z_is_rne only
@@ -313,7 +316,8 @@ STD_NAME = {'parseInt': 'parseInt', 'parseOctal': 'parseOctal', 'parseHex': 'par
 MODEL_FN = {'parseInt': 'parseInt', 'parseOctal': 'parseOctal', 'parseHex': 'parseHex', 'base64s': 'base64s',
             'base64n': 'base64n', 'base64DecodeBytes': 'base64dec', 'base64Decode': 'base64dec',
             'encodeUTF8': 'encodeUTF8', 'decodeUTF8': 'decodeUTF8', 'escBash': 'escBash', 'escDollars': 'escDollars',
-            'escXml': 'escXml', 'escJson': 'escJson', 'escPython': 'escPython', 'parseJson': 'parseJson'}
+            'escXml': 'escXml', 'escJson': 'escJson', 'escPython': 'escPython', 'parseJson': 'parseJson',
+            'md5': 'md5', 'sha1': 'sha1', 'sha256': 'sha256', 'sha512': 'sha512', 'sha3': 'sha3'}
 NUM_LITS = ['0', '1', '65', '255', '254.9', '255.5', '1.5', '0.5', '-0.5', '-0', '256', '-1', '1e10', '-1e10', '3e9',
             '2147483903', '4294967296', '1e300', '-0.99', '127', '128', '200.25']
 
